@@ -40,6 +40,10 @@ type Script struct {
 	TimeoutWriteAt int `json:"timeout_write_at,omitempty"`
 	// TimeoutReadAt: the j-th Read call reports a timeout, if a read deadline is armed.
 	TimeoutReadAt int `json:"timeout_read_at,omitempty"`
+	// EOFWithData: the Read that delivers the last byte of the input also reports the end of
+	// the stream (n > 0 together with io.EOF, which io.Reader allows and crypto/tls does when
+	// the peer's close notification is already buffered behind the last record).
+	EOFWithData bool
 }
 
 // Conn is a scripted net.Conn. It is used by exactly one goroutine.
@@ -136,6 +140,10 @@ func (c *Conn) Read(p []byte) (int, error) {
 	copy(p, c.S.Input[c.pos:c.pos+n])
 	c.pos += n
 	OnDelivered(n)
+	if c.S.EOFWithData && c.pos >= len(c.S.Input) && c.S.End != EndReset {
+		c.ended = true
+		return n, io.EOF
+	}
 	return n, nil
 }
 
@@ -220,6 +228,12 @@ type ChunkReader struct {
 
 func NewChunkReader(input []byte, splits []int, stride int) *ChunkReader {
 	return &ChunkReader{c: NewConn(Script{Input: input, Splits: splits, Stride: stride})}
+}
+
+// NewChunkReaderEOFWithData is NewChunkReader for a reader that reports the end of the
+// stream together with the last data.
+func NewChunkReaderEOFWithData(input []byte, splits []int, stride int) *ChunkReader {
+	return &ChunkReader{c: NewConn(Script{Input: input, Splits: splits, Stride: stride, EOFWithData: true})}
 }
 
 // Reads is the number of Read calls that delivered data.
